@@ -1,10 +1,124 @@
-/- Line-protocol model driver for C09 (marshal codec).
+/- Line-protocol model driver for C09 (marshal codec and data-graph marshal / unmarshal).
     pushint <int>      -> hex bytes
     readint <hex>      -> "ok <int> <consumed>" | "err"
+    push64 <nat>       -> hex bytes
+    read64 <hex>       -> "ok <nat> <consumed>" | "err"
+    marshal <desc>     -> hex bytes | "err"
+    unmarshal <hex>    -> "ok <consumed> <desc>" | "err"
+  <desc> = <val> { "|" <obj> }      heap objects in reference-number order (see JanetModel/Marsh/Graph.lean)
+  <val>  = n | t | f | i<int> | r<id>
+  <obj>  = R<hex8> | Ss<hex> | Sy<hex> | Sk<hex> | G<hex> | B<hex> | A0 <val>* | A1 <val>* | T<flag> <val>*
+         | M<weak> <proto|_> (<val> <val>)* | U <proto|_> (<val> <val>)*
 -/
 import Driver.Util
 import JanetModel.Marsh.IntCodec
+import JanetModel.Marsh.Size
+import JanetModel.Marsh.Graph
 open Driver JanetModel.Marsh
+
+def dropFirst (s : String) (k : Nat) : String := String.ofList (s.toList.drop k)
+
+def parseVal (t : String) : Option Val :=
+  match t.toList with
+  | ['n'] => some .nil
+  | ['t'] => some (.bool true)
+  | ['f'] => some (.bool false)
+  | 'i' :: rest => (String.ofList rest).toInt?.map .int
+  | 'r' :: rest => (String.ofList rest).toNat?.map .ref
+  | _ => none
+
+def parseVals : List String → Option (List Val)
+  | [] => some []
+  | t :: ts => do
+    let v ← parseVal t
+    let vs ← parseVals ts
+    some (v :: vs)
+
+def parseProto (t : String) : Option (Option Val) :=
+  if t = "_" then some none else (parseVal t).map some
+
+def parseObj : List String → Option Obj
+  | [] => none
+  | hd :: args =>
+    match hd.toList with
+    | 'R' :: h => (bytesOfHex (String.ofList h)).map .real
+    | 'S' :: 's' :: h => (bytesOfHex (String.ofList h)).map (.str .string)
+    | 'S' :: 'y' :: h => (bytesOfHex (String.ofList h)).map (.str .symbol)
+    | 'S' :: 'k' :: h => (bytesOfHex (String.ofList h)).map (.str .keyword)
+    | 'G' :: h => (bytesOfHex (String.ofList h)).map .reg
+    | 'B' :: h => (bytesOfHex (String.ofList h)).map .buffer
+    | ['A', '0'] => (parseVals args).map (.array false)
+    | ['A', '1'] => (parseVals args).map (.array true)
+    | 'T' :: fl => do
+      let flag ← (String.ofList fl).toInt?
+      let items ← parseVals args
+      some (.tuple flag items)
+    | 'M' :: w => do
+      let weak ← (String.ofList w).toNat?
+      match args with
+      | [] => none
+      | p :: kv => do
+        let proto ← parseProto p
+        let vs ← parseVals kv
+        if vs.length % 2 = 0 then some (.table weak proto (pairUp vs)) else none
+    | ['U'] =>
+      match args with
+      | [] => none
+      | p :: kv => do
+        let proto ← parseProto p
+        let vs ← parseVals kv
+        if vs.length % 2 = 0 then some (.struct proto (pairUp vs)) else none
+    | _ => none
+
+/-- split on the token "|" -/
+def splitBar (toks : List String) : List (List String) :=
+  let rec go : List String → List String → List (List String) → List (List String)
+    | [], cur, acc => (cur.reverse :: acc).reverse
+    | t :: ts, cur, acc => if t = "|" then go ts [] (cur.reverse :: acc) else go ts (t :: cur) acc
+  go toks [] []
+
+def parseObjs : List (List String) → Option (List Obj)
+  | [] => some []
+  | o :: os => do
+    let x ← parseObj o
+    let xs ← parseObjs os
+    some (x :: xs)
+
+def parseDesc (toks : List String) : Option (Val × List Obj) :=
+  match splitBar toks with
+  | [v] :: objs => do
+    let x ← parseVal v
+    let H ← parseObjs objs
+    some (x, H)
+  | _ => none
+
+def showVal : Val → String
+  | .nil => "n"
+  | .bool true => "t"
+  | .bool false => "f"
+  | .int i => s!"i{i}"
+  | .ref id => s!"r{id}"
+
+def showVals (vs : List Val) : String := String.join (vs.map fun v => " " ++ showVal v)
+
+def showProto : Option Val → String
+  | none => " _"
+  | some p => " " ++ showVal p
+
+def showObj : Obj → String
+  | .real bs => "R" ++ hexOfBytes bs
+  | .str .string bs => "Ss" ++ hexOfBytes bs
+  | .str .symbol bs => "Sy" ++ hexOfBytes bs
+  | .str .keyword bs => "Sk" ++ hexOfBytes bs
+  | .reg bs => "G" ++ hexOfBytes bs
+  | .buffer bs => "B" ++ hexOfBytes bs
+  | .array w items => (if w then "A1" else "A0") ++ showVals items
+  | .tuple flag items => s!"T{flag}" ++ showVals items
+  | .table w p kvs => s!"M{w}" ++ showProto p ++ showVals (flatKV kvs)
+  | .struct p kvs => "U" ++ showProto p ++ showVals (flatKV kvs)
+
+def showDesc (x : Val) (H : List Obj) : String :=
+  showVal x ++ String.join (H.map fun o => " | " ++ showObj o)
 
 def step (_ : Unit) (toks : List String) : Unit × String :=
   match toks with
@@ -20,6 +134,33 @@ def step (_ : Unit) (toks : List String) : Unit × String :=
       | none => ((), "err")
     | none => ((), "bad-op")
   | ["readint"] => ((), match readint [] with | some _ => "ok" | none => "err")
+  | ["push64", n] =>
+    match n.toNat? with
+    | some x => if x < 18446744073709551616 then ((), hexOfBytes (push64 x)) else ((), "bad-op")
+    | none => ((), "bad-op")
+  | ["read64", h] =>
+    match bytesOfHex h with
+    | some bs =>
+      match read64 bs with
+      | some (x, tl) => ((), s!"ok {x} {bs.length - tl.length}")
+      | none => ((), "err")
+    | none => ((), "bad-op")
+  | ["read64"] => ((), "err")
+  | "marshal" :: d =>
+    match parseDesc d with
+    | some (x, H) =>
+      match marshal H x with
+      | some bs => ((), hexOfBytes bs)
+      | none => ((), "err")
+    | none => ((), "bad-op")
+  | ["unmarshal", h] =>
+    match bytesOfHex h with
+    | some bs =>
+      match unmarshal bs with
+      | some (x, H, used) => ((), s!"ok {used} {showDesc x H}")
+      | none => ((), "err")
+    | none => ((), "bad-op")
+  | ["unmarshal"] => ((), "err")
   | _ => ((), "bad-op")
 
 def main : IO Unit := runLoop () step
